@@ -456,3 +456,101 @@ def judge_ack(rec, prog, info):
                     viol = viol or ("`%s` reports not-found although order %s was resting before the call began and nothing removed it"
                                     % (w["op"], w["id"]))
     return viol, known
+
+
+# ------------------------------------------------------------------ the exported queue on its own (C08, second half)
+
+def gen_qprog(rng):
+    ids = ["u%d" % i for i in range(1, 8)]
+    ts = 10
+
+    def order(k):
+        nonlocal ts
+        ts += rng.randint(0, 2)
+        return gen.order("S", oid=k, price=100, side="S", ts=ts, tif="GTC", vis=rng.randint(1, 9))
+    pool = list(ids)
+    rng.shuffle(pool)
+    setup = ["QPUSH " + order(pool.pop()) for _ in range(rng.randint(0, 3))]
+    threads = []
+    for t in range(rng.choice([2, 2, 3, 3, 4])):
+        ops = []
+        for _ in range(rng.randint(1, 4)):
+            x = rng.random()
+            if x < 0.3 and pool:
+                ops.append("QPUSH " + order(pool.pop()))       # ids pushed once: no known-finding K2 involved
+            elif x < 0.6:
+                ops.append("QPOP")
+            elif x < 0.75:
+                ops.append("QREMOVE " + rng.choice(ids))
+            elif x < 0.87:
+                ops.append("QFIND " + rng.choice(ids))
+            else:
+                ops.append(rng.choice(["QLEN", "QEMPTY", "QVEC"]))
+        threads.append(ops)
+    return setup, threads
+
+
+def run_qprogs(lines, profile="debug", timeout=1800):
+    recs = {}
+    pending = list(lines)
+    order_ids = [l.split("|", 1)[0] for l in lines]
+    guard = 0
+    while pending and guard < 200:
+        guard += 1
+        p = subprocess.run([harness_bin(profile), "qconc", MODELRUN], input="\n".join(pending) + "\n",
+                           text=True, stdout=subprocess.PIPE, timeout=timeout)
+        cur, last = None, None
+        for l in p.stdout.splitlines():
+            tag, _, rest = l.partition(" ")
+            if tag == "P":
+                cur = dict(id=rest, ev=[], X=[], Q=None, V=None, D=None, K=None, I0=None, N=None)
+                recs[rest] = cur
+                last = rest
+            elif cur is None:
+                continue
+            elif tag in ("S", "B", "R"):
+                cur["ev"].append((tag, rest))
+            elif tag == "X":
+                cur["X"].append(rest)
+            elif tag in ("Q", "V", "D", "K", "I0", "N"):
+                cur[tag] = rest
+        if p.returncode in (3, 4) and last is not None:
+            k = [i for i, l in enumerate(pending) if l.split("|", 1)[0] == last][0]
+            pending = pending[k + 1:]
+        else:
+            break
+    return [recs[i] for i in order_ids if i in recs]
+
+
+def judge_queue_run(rec):
+    """Every order handed to the queue is handed out exactly once: to one popper / remover during the run,
+    or by the draining pops afterwards; never to two, never to none."""
+    if rec["X"]:
+        return "run aborted: " + "; ".join(rec["X"])
+    live = {}
+    for o in gen.parse_list(kv(rec["I0"])["vec"]):
+        live[gen.parse_order(o)["id"]] = o
+    handed = []
+    for tag, rest in rec["ev"]:
+        if tag == "S":
+            tid, ev = rest.split(" ", 1)
+            if ev.startswith("INS "):
+                o = ev[4:]
+                live[gen.parse_order(o)["id"]] = o
+            elif ev.startswith("REM ") and not ev.endswith(" -"):
+                _, k, o = ev.split(" ")
+                if k not in live:
+                    return "order %s handed out twice" % k
+                del live[k]
+                handed.append(o)
+    q = kv(rec["Q"])
+    listed = gen.parse_list(q["vec"])
+    if sorted(listed) != sorted(live.values()):
+        return "listing at quiescence %s != orders still queued by the event log %s" % (listed, sorted(live.values()))
+    if int(q["len"]) != len(listed) or (q["empty"] == "1") != (len(listed) == 0):
+        return "len/is_empty (%s/%s) disagree with the listing of %d orders" % (q["len"], q["empty"], len(listed))
+    d = kv(rec["D"])
+    popped = gen.parse_list(d["popped"])
+    if sorted(popped) != sorted(listed):
+        return "draining pops return %s, the queue listed %s (an order is stranded or duplicated)" % (popped, listed)
+    return None
